@@ -707,6 +707,12 @@ impl Env for Sim {
         }
     }
 
+    fn point(&self, name: &'static str) {
+        if tid().is_some() {
+            self.yield_point(name, 0);
+        }
+    }
+
     fn open(&self, path: &Path) -> io::Result<Box<dyn Read>> {
         if tid().is_some() {
             let mut st = self.lock_st();
